@@ -298,7 +298,7 @@ def run(v, tier, seed, replay):
             v.violation("proof obligation no longer checks: " + "; ".join(lean["failures"])[:400], {"theorem_or_obligation": lean["failures"]}, found_input=False, tag="proof")
     v.coverage = {
         "obligations": lean["obligations"], "discharged": lean["discharged"] if not lean["failures"] else min(lean["discharged"], lean["obligations"] - 1),
-        "checker_cmd": "cd lean && lake build FastraceModel.Props.C09 FastraceModel.Props.ParamsOk && lake env lean <#print axioms>" + (" && lake env leanchecker FastraceModel.Props.C09" if tier == "thorough" else ""),
+        "checker_cmd": "cd lean && lake build FastraceModel.Props.C09 FastraceModel.Props.E2E FastraceModel.Props.Fifo FastraceModel.Props.ParamsOk && lake env lean <#print axioms>" + (" && lake env leanchecker FastraceModel.Props.C09" if tier == "thorough" else ""),
         "trusted_base": C.TRUSTED_BASE + ["rtrb ring buffer: FIFO with the stated capacity, push fails iff full (compared on every sequence, not proved)"],
         "theorems": lean["theorems"], "axioms": lean["axioms"],
         "evaluations": len(cases) + len(tags), "distinct_nontrivial": len(nontriv),
